@@ -523,7 +523,10 @@ def main() -> int:
         if isinstance(r, Exception):
             print(f'HARNESS-ERROR property={prop} replay of fixed finding {entry["id"]}: {r}')
             return 2
-        if r['violation']:
+        if r['violation'] and any(sig_matches(e, r['signature']) for e in known):
+            # the stored input now gets past the repaired defect and meets another, listed one
+            known_status[entry['id']] = f'fixed, passes (the input goes on to the listed finding {r["signature"]})'
+        elif r['violation']:
             violations.append({'signature': r['signature'], 'message': r['message'], 'engine': entry['engine'], 'case': entry['case']})
             known_status[entry['id']] = 'FIXED FINDING IS BACK'
         else:
